@@ -23,7 +23,18 @@
      A-cb     handler callbacks return (a handler that blocks stalls its connection's read loop;
               that is the documented contract of common.Handler).
    Left out: Client.ctx shutdown (ErrClientClosed), the write timeout expiring on a stalled
-   upstream (behaves like UpDrop), ping/pong bookkeeping (only its effect, APingTimeout). *)
+   upstream (behaves like UpDrop), ping/pong bookkeeping (only its effect, APingTimeout).
+
+   This is the code AFTER the three repairs (ModelV0.v is the code as found):
+     - getOrDial: the dialler leaves the dialing table ([M]) BEFORE it publishes its result; a dial
+       that failed while the dialler's own ctx was done is published as "aborted", and a waiter
+       never inherits an aborted result: it returns its own ctx error or enters getOrDial again
+       (SRetry);
+     - removeSub / the idle timer call closeIfEmpty, which tests "table empty" and sets the closed
+       flag in ONE subsMu critical section (close_if_empty, a single action); Subscribe enters
+       getOrDial again when subscribe finds the connection closed (SRetry);
+     - the subscribe frame is written under the connection's ctx; the subscriber's ctx is only
+       looked at before the write (ASend). *)
 From Coq Require Import List NArith Arith Bool.
 Import ListNotations.
 
@@ -37,8 +48,8 @@ Definition key_eqb (a b : key) : bool :=
 Inductive cause :=
 | CUpstream                (* upstream dropped / sent garbage: read error *)
 | CPing                    (* pong overdue *)
-| CIdle                    (* closeConn after the subscription table was SEEN empty *)
-| CWriteCtx (k : nat).     (* coder/websocket closed the socket: k's write ctx was cancelled *)
+| CIdle                    (* closed because the subscription table was empty *)
+| CWriteCtx (k : nat).     (* historical (ModelV0): k's write ctx was cancelled and took the socket down *)
 
 Inductive err :=
 | ECtx (k : nat) (init : bool)   (* context error of subscriber k's ctx (during init: wrapped in ErrInitFailed) *)
@@ -55,23 +66,25 @@ Inductive cont := KCancel | KSendFail (e : err).
 
 Inductive spc :=
 | SIdle
+| SRetry                                   (* about to enter getOrDial again (aborted dial / connection found closed) *)
 | SWait (d : nat)                          (* select { ctx.Done ; result.done } *)
 | SDial (d : nat)                          (* inside t.dial(ctx, ...) with OWN ctx *)
-| SPublish (d : nat) (r : option err)      (* dial returned; result not yet published *)
-| SBook (d : nat) (r : option err)         (* close(done) executed; [M] bookkeeping pending *)
+| SBook (d : nat) (r : option err)         (* dial returned; [M] bookkeeping pending *)
+| SPublish (d : nat) (r : option err)      (* left the dialing table; result not yet published *)
 | SHaveConn (c : nat)                      (* getOrDial returned c *)
 | SSend (c w : nat)                        (* inserted; protocol.Subscribe pending *)
 | SActive (c w : nat)                      (* Subscribe returned the cancel func *)
 | SUnsubSend (c w : nat)                   (* unsubscribe: entry seen, protocol.Unsubscribe pending *)
 | SRemove (c w : nat) (k : cont)           (* removeSub pending *)
-| SClose (c : nat) (k : cont)              (* removeSub saw the table empty, idle = 0: closeConn pending *)
+| SClose (c : nat) (k : cont)              (* removeSub saw the table empty, idle = 0: closeIfEmpty pending *)
 | SDone
 | SFailed.
 
 Inductive rlpc := RLRun | RLRemove (w : nat) | RLClose | RLExit.
 Inductive dphase := DConnecting | DInit | DReturned.
 
-Record dial := { d_key : key; d_owner : nat; d_phase : dphase; d_done : option (option err) }.
+Record dial := { d_key : key; d_owner : nat; d_phase : dphase; d_done : option (option err);
+                 d_abort : bool (* published as given up under the dialler's own ctx *) }.
 
 Record conn := {
   c_key : key;
@@ -79,7 +92,6 @@ Record conn := {
   c_closed : bool;                (* atomic closed *)
   c_dead : option cause;          (* the socket is unusable, and why *)
   c_timers : nat;                 (* armed time.AfterFunc idle timers *)
-  c_tclose : nat;                 (* timer goroutines between "stillEmpty" and closeConn *)
   c_rl : rlpc;
   c_rm : bool                     (* shutdown ran up to the error callbacks; onEmpty (removeConn) pending *)
 }.
@@ -113,12 +125,12 @@ Inductive ev :=
 
 Inductive action :=
 | ASub (i : nat) (k : key) | ACtxCancel (i : nat)
-| AWaitDone (i : nat) | AWaitCtx (i : nat) | ADialCtx (i : nat)
-| APublish (i : nat) | ABook (i : nat) | AInsert (i : nat)
-| ASend (i : nat) | ASendCtx (i : nat) (kill ok : bool)
+| AWaitDone (i : nat) | AWaitCtx (i : nat) | ADialCtx (i : nat) | ARetry (i : nat)
+| ABook (i : nat) | APublish (i : nat) | AInsert (i : nat)
+| ASend (i : nat)
 | AUnsub (i : nat) | AUnsubSend (i : nat) | ARemove (i : nat) | AClose (i : nat)
 | ARLRemove (c : nat) | ARLClose (c : nat) | ARLReadErr (c : nat)
-| ATimerFire (c : nat) | ATimerClose (c : nat) | ARemoveConn (c : nat)
+| ATimerFire (c : nat) | ARemoveConn (c : nat)
 | UpAccept (d : nat) | UpReject (d : nat) | UpAck (d : nat) | UpInitFail (d : nat) (r : N)
 | UpMsg (c w : nat) (k : kind) | UpDrop (c : nat) | APingTimeout (c : nat)
 | SseSub (i : nat) | SseOk (i : nat) | SseFail (i : nat) | SseMsg (i : nat) (k : kind)
@@ -170,35 +182,38 @@ Definition set_sse (s : st) (i : nat) (p : ssepc) : st :=
 
 Definition c_set_subs (x : conn) (l : list (nat * nat)) : conn :=
   {| c_key := c_key x; c_subs := l; c_closed := c_closed x; c_dead := c_dead x; c_timers := c_timers x;
-     c_tclose := c_tclose x; c_rl := c_rl x; c_rm := c_rm x |}.
+     c_rl := c_rl x; c_rm := c_rm x |}.
 Definition c_set_rl (x : conn) (r : rlpc) : conn :=
   {| c_key := c_key x; c_subs := c_subs x; c_closed := c_closed x; c_dead := c_dead x; c_timers := c_timers x;
-     c_tclose := c_tclose x; c_rl := r; c_rm := c_rm x |}.
-Definition c_set_timers (x : conn) (t tc : nat) : conn :=
+     c_rl := r; c_rm := c_rm x |}.
+Definition c_set_timers (x : conn) (t : nat) : conn :=
   {| c_key := c_key x; c_subs := c_subs x; c_closed := c_closed x; c_dead := c_dead x; c_timers := t;
-     c_tclose := tc; c_rl := c_rl x; c_rm := c_rm x |}.
+     c_rl := c_rl x; c_rm := c_rm x |}.
 Definition c_set_rm (x : conn) (b : bool) : conn :=
   {| c_key := c_key x; c_subs := c_subs x; c_closed := c_closed x; c_dead := c_dead x; c_timers := c_timers x;
-     c_tclose := c_tclose x; c_rl := c_rl x; c_rm := b |}.
+     c_rl := c_rl x; c_rm := b |}.
 (* the socket becomes unusable (first cause wins) *)
 Definition c_kill (x : conn) (cz : cause) : conn :=
   {| c_key := c_key x; c_subs := c_subs x; c_closed := c_closed x;
      c_dead := match c_dead x with None => Some cz | d => d end; c_timers := c_timers x;
-     c_tclose := c_tclose x; c_rl := c_rl x; c_rm := c_rm x |}.
+     c_rl := c_rl x; c_rm := c_rm x |}.
 Definition kill_evs (c : nat) (x : conn) : list ev :=
   match c_dead x with None => [OSrvClosed c] | _ => [] end.
 
 Definition d_set (x : dial) (p : dphase) (dn : option (option err)) : dial :=
-  {| d_key := d_key x; d_owner := d_owner x; d_phase := p; d_done := dn |}.
+  {| d_key := d_key x; d_owner := d_owner x; d_phase := p; d_done := dn; d_abort := d_abort x |}.
+(* result.conn, result.err, result.aborted := ...; close(result.done) *)
+Definition d_publish (x : dial) (r : option err) (ab : bool) : dial :=
+  {| d_key := d_key x; d_owner := d_owner x; d_phase := DReturned; d_done := Some r; d_abort := ab |}.
 
 Definition init (idl : bool) : st :=
   {| pc := fun _ => SIdle; ctxc := fun _ => false; okey := fun _ => (0, 0, 0, 0)%N;
      conns := fun _ => None; dialing := fun _ => None; dials := fun _ => None; cns := fun _ => None;
      next_c := 0; next_w := 0; idle := idl; seen := []; sse := fun _ => SseIdle |}.
 
-(* shutdown(err) up to and including the error callbacks and c.cancel(): CAS closed; close the
-   socket; swap the table; call every handler with the connection error.  onEmpty is a separate
-   action (ARemoveConn).  A second caller returns at the CAS. *)
+(* shutdown(err) / teardown(err) up to and including the error callbacks and c.cancel(): CAS
+   closed; close the socket; swap the table; call every handler with the connection error.
+   onEmpty is a separate action (ARemoveConn).  A second caller returns at the CAS. *)
 Definition shut (s : st) (c : nat) (cz : cause) : st * list ev :=
   match cns s c with
   | None => (s, [])
@@ -207,19 +222,27 @@ Definition shut (s : st) (c : nat) (cz : cause) : st * list ev :=
     else
       let x' := {| c_key := c_key x; c_subs := []; c_closed := true;
                    c_dead := match c_dead x with None => Some cz | d => d end;
-                   c_timers := c_timers x; c_tclose := c_tclose x; c_rl := c_rl x; c_rm := true |} in
+                   c_timers := c_timers x; c_rl := c_rl x; c_rm := true |} in
       (set_cn s c x', map (fun p => OConnErr (snd p) cz) (c_subs x) ++ kill_evs c x)
   end.
 
-(* removeSub(id): [S_c] delete, empty?  -> arm a timer (idle > 0) or go on to closeConn *)
-Definition remove_sub (s : st) (c w : nat) : option (st * bool) :=   (* bool: closeConn pending *)
+(* closeIfEmpty: [S_c: len(subs) == 0 && closed.CAS(false, true)] then teardown.  The emptiness
+   test and the flag are one critical section; subscribe tests the flag under the same lock. *)
+Definition close_if_empty (s : st) (c : nat) : st * list ev :=
+  match cns s c with
+  | Some x => if is_nil (c_subs x) then shut s c CIdle else (s, [])
+  | None => (s, [])
+  end.
+
+(* removeSub(id): [S_c] delete, empty?  -> arm a timer (idle > 0) or go on to closeIfEmpty *)
+Definition remove_sub (s : st) (c w : nat) : option (st * bool) :=   (* bool: closeIfEmpty pending *)
   match cns s c with
   | None => None
   | Some x =>
     let l := remove_w w (c_subs x) in
     let x1 := c_set_subs x l in
     if is_nil l then
-      if idle s then Some (set_cn s c (c_set_timers x1 (S (c_timers x1)) (c_tclose x1)), false)
+      if idle s then Some (set_cn s c (c_set_timers x1 (S (c_timers x1))), false)
       else Some (set_cn s c x1, true)
     else Some (set_cn s c x1, false)
   end.
@@ -228,33 +251,44 @@ Definition ret_evs (i : nat) (k : cont) : list ev :=
   match k with KCancel => [] | KSendFail e => [ORet i (Some e)] end.
 Definition after (k : cont) : spc := match k with KCancel => SDone | KSendFail _ => SFailed end.
 
+(* getOrDial [M]: a live connection stored under the key | an attempt in the dialing table | become the dialler *)
+Definition get_or_dial (s0 : st) (i : nat) (k : key) : st * list ev :=
+  let live := match conns s0 k with
+              | Some c => match cns s0 c with Some x => if c_closed x then None else Some c | None => None end
+              | None => None end in
+  match live with
+  | Some c => (set_pc s0 i (SHaveConn c), [])
+  | None =>
+    match dialing s0 k with
+    | Some d => (set_pc s0 i (SWait d), [])
+    | None =>
+      let d := next_c s0 in
+      ({| pc := upd (pc s0) i (SDial d); ctxc := ctxc s0; okey := okey s0; conns := conns s0;
+          dialing := updk (dialing s0) k (Some d);
+          dials := upd (dials s0) d (Some {| d_key := k; d_owner := i; d_phase := DConnecting; d_done := None;
+                                             d_abort := false |});
+          cns := cns s0; next_c := S d; next_w := next_w s0; idle := idle s0; seen := seen s0;
+          sse := sse s0 |}, [OSrvDial d k])
+    end
+  end.
+
+Definition set_okey (s : st) (i : nat) (k : key) : st :=
+  {| pc := pc s; ctxc := ctxc s; okey := upd (okey s) i k; conns := conns s; dialing := dialing s;
+     dials := dials s; cns := cns s; next_c := next_c s; next_w := next_w s; idle := idle s;
+     seen := seen s; sse := sse s |}.
+
 Definition step (s : st) (a : action) : option (st * list ev) :=
   match a with
   (* ---- Subscribe_i: getOrDial [M] ---- *)
   | ASub i k =>
     match pc s i with
-    | SIdle =>
-      let s0 := {| pc := pc s; ctxc := ctxc s; okey := upd (okey s) i k; conns := conns s; dialing := dialing s;
-                   dials := dials s; cns := cns s; next_c := next_c s; next_w := next_w s; idle := idle s;
-                   seen := seen s; sse := sse s |} in
-      let live := match conns s k with
-                  | Some c => match cns s c with Some x => if c_closed x then None else Some c | None => None end
-                  | None => None end in
-      match live with
-      | Some c => Some (set_pc s0 i (SHaveConn c), [])
-      | None =>
-        match dialing s k with
-        | Some d => Some (set_pc s0 i (SWait d), [])
-        | None =>
-          let d := next_c s in
-          let s1 := {| pc := upd (pc s0) i (SDial d); ctxc := ctxc s0; okey := okey s0; conns := conns s0;
-                       dialing := updk (dialing s0) k (Some d);
-                       dials := upd (dials s0) d (Some {| d_key := k; d_owner := i; d_phase := DConnecting; d_done := None |});
-                       cns := cns s0; next_c := S d; next_w := next_w s0; idle := idle s0; seen := seen s0;
-                       sse := sse s0 |} in
-          Some (s1, [OSrvDial d k])
-        end
-      end
+    | SIdle => Some (get_or_dial (set_okey s i k) i k)
+    | _ => None
+    end
+  (* the waiter of an aborted dial / Subscribe after subscribe found the connection closed *)
+  | ARetry i =>
+    match pc s i with
+    | SRetry => Some (get_or_dial s i (okey s i))
     | _ => None
     end
   | ACtxCancel i =>
@@ -269,7 +303,12 @@ Definition step (s : st) (a : action) : option (st * list ev) :=
       | Some x =>
         match d_done x with
         | Some None => Some (set_pc s i (SHaveConn d), [])
-        | Some (Some e) => Some (set_pc s i SFailed, [ORet i (Some e)])
+        | Some (Some e) =>
+          if d_abort x then
+            (* not this caller's failure: its own ctx error, or dial again *)
+            if ctxc s i then Some (set_pc s i SFailed, [ORet i (Some (ECtx i false))])
+            else Some (set_pc s i SRetry, [])
+          else Some (set_pc s i SFailed, [ORet i (Some e)])
         | None => None
         end
       | None => None
@@ -289,8 +328,8 @@ Definition step (s : st) (a : action) : option (st * list ev) :=
       | Some x =>
         if ctxc s i then
           match d_phase x with
-          | DConnecting => Some (set_pc (set_dial s d (d_set x DReturned None)) i (SPublish d (Some (ECtx i false))), [OSrvClosed d])
-          | DInit => Some (set_pc (set_dial s d (d_set x DReturned None)) i (SPublish d (Some (ECtx i true))), [OSrvClosed d])
+          | DConnecting => Some (set_pc (set_dial s d (d_set x DReturned None)) i (SBook d (Some (ECtx i false))), [OSrvClosed d])
+          | DInit => Some (set_pc (set_dial s d (d_set x DReturned None)) i (SBook d (Some (ECtx i true))), [OSrvClosed d])
           | DReturned => None
           end
         else None
@@ -308,7 +347,7 @@ Definition step (s : st) (a : action) : option (st * list ev) :=
   | UpReject d =>
     match dials s d with
     | Some x => match d_phase x with
-                | DConnecting => Some (set_pc (set_dial s d (d_set x DReturned None)) (d_owner x) (SPublish d (Some EDial)), [OReject d])
+                | DConnecting => Some (set_pc (set_dial s d (d_set x DReturned None)) (d_owner x) (SBook d (Some EDial)), [OReject d])
                 | _ => None end
     | None => None
     end
@@ -317,35 +356,41 @@ Definition step (s : st) (a : action) : option (st * list ev) :=
     | Some x => match d_phase x with
                 | DInit =>
                   let cn := {| c_key := d_key x; c_subs := []; c_closed := false; c_dead := None; c_timers := 0;
-                               c_tclose := 0; c_rl := RLRun; c_rm := false |} in
-                  Some (set_pc (set_cn (set_dial s d (d_set x DReturned None)) d cn) (d_owner x) (SPublish d None), [OAck d])
+                               c_rl := RLRun; c_rm := false |} in
+                  Some (set_pc (set_cn (set_dial s d (d_set x DReturned None)) d cn) (d_owner x) (SBook d None), [OAck d])
                 | _ => None end
     | None => None
     end
   | UpInitFail d r =>
     match dials s d with
     | Some x => match d_phase x with
-                | DInit => Some (set_pc (set_dial s d (d_set x DReturned None)) (d_owner x) (SPublish d (Some (EInit r))), [OInitFail d r; OSrvClosed d])
+                | DInit => Some (set_pc (set_dial s d (d_set x DReturned None)) (d_owner x) (SBook d (Some (EInit r))), [OInitFail d r; OSrvClosed d])
                 | _ => None end
     | None => None
     end
-  | APublish i =>
-    match pc s i with
-    | SPublish d r =>
-      match dials s d with
-      | Some x => Some (set_pc (set_dial s d (d_set x DReturned (Some r))) i (SBook d r), [])
-      | None => None
-      end
-    | _ => None
-    end
+  (* [M]: delete(dialing, key); on success conns[key] = conn -- BEFORE the result is published *)
   | ABook i =>
     match pc s i with
     | SBook d r =>
       let k := okey s i in
       let s1 := set_dialing s (updk (dialing s) k None) in
       match r with
-      | None => Some (set_pc (set_conns s1 (updk (conns s1) k (Some d))) i (SHaveConn d), [])
-      | Some e => Some (set_pc s1 i SFailed, [ORet i (Some e)])
+      | None => Some (set_pc (set_conns s1 (updk (conns s1) k (Some d))) i (SPublish d r), [])
+      | Some _ => Some (set_pc s1 i (SPublish d r), [])
+      end
+    | _ => None
+    end
+  (* result.aborted = err != nil && ctx.Err() != nil; close(result.done); return *)
+  | APublish i =>
+    match pc s i with
+    | SPublish d r =>
+      match dials s d with
+      | Some x =>
+        match r with
+        | None => Some (set_pc (set_dial s d (d_publish x r false)) i (SHaveConn d), [])
+        | Some e => Some (set_pc (set_dial s d (d_publish x r (ctxc s i))) i SFailed, [ORet i (Some e)])
+        end
+      | None => None
       end
     | _ => None
     end
@@ -359,8 +404,7 @@ Definition step (s : st) (a : action) : option (st * list ev) :=
         let s1 := {| pc := pc s; ctxc := ctxc s; okey := okey s; conns := conns s; dialing := dialing s;
                      dials := dials s; cns := cns s; next_c := next_c s; next_w := S w; idle := idle s;
                      seen := seen s; sse := sse s |} in
-        if c_closed x then
-          Some (set_pc s1 i SFailed, [ORet i (Some (EClosed (match c_dead x with Some z => z | None => CUpstream end)))])
+        if c_closed x then Some (set_pc s1 i SRetry, [])   (* ErrConnectionClosed: Subscribe starts over *)
         else match lookup w (c_subs x) with
              | Some _ => Some (set_pc s1 i SFailed, [ORet i (Some EExists)])
              | None => Some (set_pc (set_cn s1 c (c_set_subs x ((w, i) :: c_subs x))) i (SSend c w), [])
@@ -374,6 +418,9 @@ Definition step (s : st) (a : action) : option (st * list ev) :=
     | SSend c w =>
       match cns s c with
       | Some x =>
+        (* err := ctx.Err(); otherwise the frame is written under the CONNECTION's ctx *)
+        if ctxc s i then Some (set_pc s i (SRemove c w (KSendFail (ECtx i false))), [])
+        else
         match c_dead x with
         | None =>
           Some ({| pc := upd (pc s) i (SActive c w); ctxc := ctxc s; okey := okey s; conns := conns s;
@@ -381,33 +428,6 @@ Definition step (s : st) (a : action) : option (st * list ev) :=
                    idle := idle s; seen := (w, i) :: seen s; sse := sse s |}, [OSrvSub c w i; ORet i None])
         | Some z => Some (set_pc s i (SRemove c w (KSendFail (EWrite z))), [])
         end
-      | None => None
-      end
-    | _ => None
-    end
-  (* the write races with i's own cancelled ctx (coder/websocket): lock select may return the ctx
-     error, and once the frame write has begun AfterFunc(ctx) closes the WHOLE socket *)
-  | ASendCtx i kill ok =>
-    match pc s i with
-    | SSend c w =>
-      match cns s c with
-      | Some x =>
-        if ctxc s i then
-          match c_dead x with
-          | None =>
-            let x' := if kill then c_kill x (CWriteCtx i) else x in
-            let kev := if kill then [OSrvClosed c] else [] in
-            if ok then
-              if kill then
-                Some ({| pc := upd (pc s) i (SActive c w); ctxc := ctxc s; okey := okey s; conns := conns s;
-                         dialing := dialing s; dials := dials s; cns := upd (cns s) c (Some x'); next_c := next_c s;
-                         next_w := next_w s; idle := idle s; seen := (w, i) :: seen s; sse := sse s |},
-                      [OSrvSub c w i; ORet i None] ++ kev)
-              else None   (* = ASend *)
-            else Some (set_pc (set_cn s c x') i (SRemove c w (KSendFail (ECtx i false))), kev)
-          | Some _ => None
-          end
-        else None
       | None => None
       end
     | _ => None
@@ -448,7 +468,7 @@ Definition step (s : st) (a : action) : option (st * list ev) :=
     end
   | AClose i =>
     match pc s i with
-    | SClose c k => let (s1, evs) := shut s c CIdle in Some (set_pc s1 i (after k), evs ++ ret_evs i k)
+    | SClose c k => let (s1, evs) := close_if_empty s c in Some (set_pc s1 i (after k), evs ++ ret_evs i k)
     | _ => None
     end
   (* ---- read loop of connection c ---- *)
@@ -489,9 +509,10 @@ Definition step (s : st) (a : action) : option (st * list ev) :=
     | Some x =>
       match c_rl x with
       | RLClose =>
-        let (s1, evs) := shut s c CIdle in
+        (* closeIfEmpty; the loop then tests closed (-> ARLReadErr leaves it) or reads on *)
+        let (s1, evs) := close_if_empty s c in
         match cns s1 c with
-        | Some x1 => Some (set_cn s1 c (c_set_rl x1 RLExit), evs)
+        | Some x1 => Some (set_cn s1 c (c_set_rl x1 RLRun), evs)
         | None => None
         end
       | _ => None
@@ -512,21 +533,12 @@ Definition step (s : st) (a : action) : option (st * list ev) :=
       end
     | None => None
     end
-  (* ---- idle timer: "stillEmpty" under RLock, then closeConn WITHOUT the lock ---- *)
+  (* ---- idle timer fires: closeIfEmpty ---- *)
   | ATimerFire c =>
     match cns s c with
     | Some x =>
       match c_timers x with
-      | S t => Some (set_cn s c (c_set_timers x t (if is_nil (c_subs x) then S (c_tclose x) else c_tclose x)), [])
-      | O => None
-      end
-    | None => None
-    end
-  | ATimerClose c =>
-    match cns s c with
-    | Some x =>
-      match c_tclose x with
-      | S t => let (s1, evs) := shut (set_cn s c (c_set_timers x (c_timers x) t)) c CIdle in Some (s1, evs)
+      | S t => Some (close_if_empty (set_cn s c (c_set_timers x t)) c)
       | O => None
       end
     | None => None
@@ -579,12 +591,12 @@ Fixpoint run (s : st) (tr : list action) : option (st * list ev) :=
     end
   end.
 
-(* ---- correspondence glue: run the enabled INTERNAL actions (not environment, not timers, not
-   ctx-racing sends) in a fixed order until none is enabled.  Used by the driver after every
+(* ---- correspondence glue: run the enabled INTERNAL actions (not environment, not timers)
+   in a fixed order until none is enabled.  Used by the driver after every
    harness-controlled event. ---- *)
 Fixpoint seq (n : nat) : list nat := match n with O => [] | S m => seq m ++ [m] end.
 Definition internal_candidates (nsub : nat) (s : st) : list action :=
-  flat_map (fun i => [AWaitDone i; AWaitCtx i; ADialCtx i; APublish i; ABook i; AInsert i; ASend i;
+  flat_map (fun i => [AWaitDone i; AWaitCtx i; ADialCtx i; ARetry i; ABook i; APublish i; AInsert i; ASend i;
                       AUnsub i; AUnsubSend i; ARemove i; AClose i]) (seq nsub)
   ++ flat_map (fun c => [ARLRemove c; ARLClose c; ARLReadErr c; ARemoveConn c]) (seq (next_c s)).
 Fixpoint first_enabled (s : st) (l : list action) : option (st * list ev) :=
@@ -602,7 +614,7 @@ Fixpoint quiesce (fuel nsub : nat) (s : st) : st * list ev :=
     end
   end.
 Definition timer_candidates (s : st) : list action :=
-  flat_map (fun c => [ATimerFire c; ATimerClose c]) (seq (next_c s)).
+  flat_map (fun c => [ATimerFire c]) (seq (next_c s)).
 (* the idle period elapses: every armed timer fires *)
 Fixpoint tick (fuel nsub : nat) (s : st) : st * list ev :=
   match fuel with
